@@ -22,16 +22,16 @@ type Account struct {
 // World is a generated pre-state plus the address pools programs and
 // transactions draw from.
 type World struct {
-	ChainID     *big.Int
-	Galaxias    bool
-	Keys        []*ecdsa.PrivateKey
-	EOAs        []common.Address // EOAs[i] belongs to Keys[i]
-	Contracts   []common.Address
-	Fresh       []common.Address // do not exist in the pre-state
-	Precompiles []common.Address
-	Coinbase    common.Address
+	ChainID      *big.Int
+	Galaxias     bool
+	Keys         []*ecdsa.PrivateKey
+	EOAs         []common.Address // EOAs[i] belongs to Keys[i]
+	Contracts    []common.Address
+	Fresh        []common.Address // do not exist in the pre-state
+	Precompiles  []common.Address
+	Coinbase     common.Address
 	CoinbaseKind string
-	Accounts    map[common.Address]*Account // the pre-state
+	Accounts     map[common.Address]*Account // the pre-state
 }
 
 // Key returns the deterministic key of generated EOA i.
@@ -43,8 +43,10 @@ func Key(i int) *ecdsa.PrivateKey {
 	return k
 }
 
-func ContractAddr(i int) common.Address { return common.BytesToAddress([]byte{0xc0, 0xde, byte(i + 1)}) }
-func FreshAddr(i int) common.Address    { return common.BytesToAddress([]byte{0xf0, 0x0d, byte(i + 1)}) }
+func ContractAddr(i int) common.Address {
+	return common.BytesToAddress([]byte{0xc0, 0xde, byte(i + 1)})
+}
+func FreshAddr(i int) common.Address { return common.BytesToAddress([]byte{0xf0, 0x0d, byte(i + 1)}) }
 
 // Targets returns every address a program may name.
 func (w *World) Targets() []common.Address {
@@ -347,7 +349,7 @@ func Program(r *rand.Rand, w *World, self int) []byte {
 		case 16: // LOG1
 			a.PushU(uint64(r.Intn(4))).PushU(32).PushU(0).Op(opLOG1)
 		case 17: // SHA3 of a growing memory area: burns gas
-			a.PushU(uint64(32 * (1 + r.Intn(64)))).PushU(0).Op(opSHA3, opPOP)
+			a.PushU(uint64(32*(1+r.Intn(64)))).PushU(0).Op(opSHA3, opPOP)
 		case 18: // SELFDESTRUCT in the middle (the rest is dead code, kept for its bytes)
 			if r.Intn(3) == 0 {
 				selfdestruct(a, r, w, self)
